@@ -16,7 +16,7 @@ class C04(RecorderProp):
             'discards / joins) under the controlled scheduler: every schedule with <= 2 pre-emptions at line granularity inside '
             'tape_recorder.py (bounded by a run budget) and random schedules; non-trivial = at least one run with an intercepted '
             'call; distinct = distinct canonical case')
-    OPTS = dict(ALL_OPTS, play_ratio=0.1, cassettes=['memory', 'memory', 'file', 's3'], enabled_ratio=0.8)
+    OPTS = dict(ALL_OPTS, play_ratio=0.1, cassettes=['memory', 'memory', 'file', 's3', 'async'], enabled_ratio=0.8)
     N = {'quick': 3000, 'thorough': 30000}
 
     THREAD_SCENARIOS = {'quick': 6, 'thorough': 40}
